@@ -360,7 +360,19 @@ def case_reduce(ctx, inp):
     if got[0] == "raised":
         ctx.fail(f"{op}: dask raised but NumPy returns a value: {got[1]}", observed=got[1], expected=np.asarray(exp[1]).tolist())
         return
-    if not U.same_values(got[1], exp[1], exact, _scale(op, a), _rtol(got[1], exp[1], a)):
+    gv, ev = got[1], exp[1]
+    if op in ("var", "std", "nanvar", "nanstd") and kw.get("ddof"):
+        # degrees of freedom <= 0: NumPy warns and returns nan or inf depending on rounding (np.nanvar forces nan, np.var
+        # divides by max(n - ddof, 0)); the value is undefined, only its position is compared
+        with warnings.catch_warnings():
+            warnings.simplefilter("ignore")
+            live = ~np.isnan(a.astype(float)) if op.startswith("nan") else np.ones(a.shape, dtype=bool)
+            undefined = np.sum(live, axis=ax_arg, keepdims=kd) - kw["ddof"] <= 0
+            if np.any(undefined) and np.shape(gv) == np.shape(ev) == np.shape(undefined):
+                gv = np.where(undefined, np.nan, np.asarray(gv, dtype=float))
+                ev = np.where(undefined, np.nan, np.asarray(ev, dtype=float))
+                ctx.branch("dof <= 0 cells (undefined) not compared")
+    if not U.same_values(gv, ev, exact, _scale(op, a), _rtol(got[1], exp[1], a)):
         ctx.fail(f"{op} differs from NumPy", observed=np.asarray(got[1]).tolist(), expected=np.asarray(exp[1]).tolist())
     if op != "moment":
         _check_dtype(ctx, op, holder["r"], got[1], exp[1])
